@@ -34,7 +34,7 @@ Lemma filter_recs0 lim : forall k d, positive k ->
 Proof.
   induction k as [a t0 t1 kids IH] using call_ind'. intros d [Hlt Hk].
   cbn [recs].
-  assert (E2 : (0 <? t1 - t0) = true) by (apply N.ltb_lt; lia). rewrite E2. cbn [orb].
+  assert (E2 : (0 <=? t1 - t0) = true) by (apply N.leb_le; lia). rewrite E2. cbn [orb].
   assert (KS : forall d', filter storable (flat_map (recs 0 lim d') kids) =
                           flat_map (recs 0 (N.min lim 1024) d') kids).
   { intro d'. apply filter_flat_map. clear Hlt E2. revert Hk.
